@@ -119,7 +119,59 @@ def replay_threshold(S, r, o):
             'after': sorted(after)}
 
 
+def age_battery(repo):
+    """native: trash-empty DAYS around the threshold with a fixed TRASH_DATE,
+    and with the REAL clock in time zones away from UTC (DeletionDate is local
+    time: the comparison must use the local clock)"""
+    import subprocess
+    problems = []
+    now = '2020-01-10T12:00:00'
+    cases = [('2020-01-09T12:00:00', 1, False), ('2020-01-09T11:59:59', 1, True),
+             ('2020-01-09T12:00:01', 1, False), ('2020-01-10T12:00:00', 0, False),
+             ('2020-01-10T11:59:59', 0, True), ('2020-01-11T00:00:00', 0, False),
+             ('2010-01-01T00:00:00', 3650, True), ('2010-01-13T12:00:00', 3650, False)]
+    for date, days, want in cases:
+        with Sandbox(repo) as sb:
+            td = sb.path('T')
+            sb.add_entry(td, 'e', path='/orig/e', date=date)
+            sb.add_entry(td, 'nodate', path='/orig/n', date=None)
+            run = sb.run('trash-empty', ['-f', '--trash-dir', td, str(days)],
+                         env={'TRASH_DATE': now})
+            after = sb.snapshot(td)
+            removed = 'files/e' not in after and 'info/e.trashinfo' not in after
+            if removed != want or ('files/e' in after) != ('info/e.trashinfo' in after):
+                problems.append('entry dated %s, now %s, DAYS=%d: removed=%s, expected %s'
+                                % (date, now, days, removed, want))
+            if 'info/nodate.trashinfo' not in after or 'files/nodate' not in after:
+                problems.append('DAYS=%d purged an entry without a date' % days)
+    for tz, ago, days, want in (('JST-9', '2 seconds ago', 0, True),
+                                ('AKST9', '21 hours ago', 1, False),
+                                ('AKST9', '27 hours ago', 1, True),
+                                ('JST-9', '21 hours ago', 1, False),
+                                ('JST-9', '27 hours ago', 1, True)):
+        date = subprocess.run(['date', '+%Y-%m-%dT%H:%M:%S', '-d', ago],
+                              env={'TZ': tz, 'PATH': os.environ.get('PATH', '')},
+                              capture_output=True, text=True).stdout.strip()
+        with Sandbox(repo) as sb:
+            td = sb.path('T')
+            sb.add_entry(td, 'e', path='/orig/e', date=date)
+            run = sb.run('trash-empty', ['-f', '--trash-dir', td, str(days)],
+                         env={'TZ': tz})
+            after = sb.snapshot(td)
+            removed = 'files/e' not in after and 'info/e.trashinfo' not in after
+            if removed != want:
+                problems.append('TZ=%s, entry trashed %s (local time %s), real clock, '
+                                'DAYS=%d: removed=%s, expected %s' % (
+                                    tz, ago, date, days, removed, want))
+    return {'confirmed': bool(problems), 'problems': problems[:10]}
+
+
+def _battery(S, r, o):
+    return age_battery(S.interp.repo)
+
+
 REPLAYERS = {
+    'empty/clock-wiring': _battery,
     'trashcli.empty.older_than.older_than/': dates.older_than_replayer(),
     'trashcli.lib.path_of_backup_copy.path_of_backup_copy/pre@':
         replay_insane_stem,
@@ -129,5 +181,6 @@ REPLAYERS = {
     'empty/purged-iff-old-enough': replay_threshold,
     'trashcli.empty.delete_according_date.DeleteAccordingDate.ok_to_delete/post/purge-iff':
         replay_threshold,
+    '': _battery,
 }
 KF_CLASSES = {}
